@@ -6,7 +6,7 @@ From Coq Require Import String.
 From Coq Require Import List NArith Bool.
 From Wbxml Require Import Model.Codec Model.TablesDefs Gen.TablesData Model.Parser Model.Spec Model.TreeBuild Model.TreeConv
      Proofs.ParserDepth Proofs.ParserProofsDoc Proofs.ParserProofsTyped Proofs.ParserProofsWv
-     Proofs.TreeBuildProofs Proofs.TreeBuildProofs2 Proofs.TreeBuildProofs3 Proofs.TreeRoundTrip.
+     Proofs.TreeBuildProofs Proofs.TreeBuildProofs2 Proofs.TreeBuildProofs3 Proofs.TreeBuildEmbed Proofs.TreeRoundTrip.
 From Wbxml Require Model.EncXml Model.XmlRead Proofs.EncXmlProofs Proofs.EncXmlIndent.
 From Wbxml Require Model.EncWbxml Model.TreeNorm Proofs.EncWbxmlProofs Proofs.EncWbxmlSerialize Proofs.EncWbxmlDenote.
 Import ListNotations.
@@ -110,6 +110,22 @@ Theorem C03b_root_is_element : forall tbl forced meta fuel bs evs ef t,
     /\ t = mk_wtree lid cs (Some (TElt tg a ch)).
 Proof. exact build_root_element. Qed.
 Print Assumptions C03b_root_is_element.
+
+(* C03b (6) FULL: embedded documents nest at most as deep as the builder allows.  sle k n: no chain of more than k
+   nested TREE nodes in n.  A tree built with `levels` levels satisfies sle levels; wbxml_tree_from_wbxml builds with
+   WBXML_MAX_EMBEDDED_DEPTH = 1 (the repair of the embedded-document finding): an embedded document never contains
+   an embedded document - the content of a <Data> inside it stays character data. *)
+Theorem C03b_embedded_depth : forall tbl levels evs t, build tbl levels evs = BOk t -> tree_sle levels t = true.
+Proof. exact build_embed_depth. Qed.
+Print Assumptions C03b_embedded_depth.
+
+Theorem C03b_embedded_depth_one : forall tbl forced meta bs t,
+  wbxml_tree_from_wbxml tbl forced meta bs = BOk t -> tree_sle 1 t = true.
+Proof.
+  intros tbl forced meta bs t. unfold wbxml_tree_from_wbxml, tree_from_wbxml.
+  destruct (parse_with tbl forced meta (S (length bs)) bs) as [evs|e|]; try discriminate. exact (build_embed_depth tbl MAX_EMBEDDED_DEPTH evs t).
+Qed.
+Print Assumptions C03b_embedded_depth_one.
 
 (* C03 ROUND TRIP at model level, PARTIAL: the fragment for which the WBXML encoder's output is proved to be the
    serialization of a strict document (C06: no string table, numeric public id, a language without typed content
